@@ -688,7 +688,7 @@ func (x *Exec) trCall(e *SExpr, env *TrEnv) *Term {
 		fi := x.u.Funcs[full]
 		if fi != nil && fi.Sig.Results().Len() == 1 {
 			as := args()
-			return withType(mk("pure."+full, x.u.sortOf(fi.Sig.Results().At(0).Type()), as...), fi.Sig.Results().At(0).Type())
+			return withType(mk(pureName(full), x.u.sortOf(fi.Sig.Results().At(0).Type()), as...), fi.Sig.Results().At(0).Type())
 		}
 	}
 	specErr(e, "unknown function %s", e.Name)
